@@ -303,6 +303,51 @@ fn path_probes() -> Vec<(String, String)> {
         let _ = k;
         out.push((how.to_string(), got));
     }
+    // ---- the real macro, end to end: each program below compiles and exits 0 only if every option written
+    // in its #[graphql(...)] attribute was applied (alone, and together with the other options beside it).
+    // This is the glue of graphql_query_derive/src/lib.rs, which the in-process part of this check mirrors.
+    w("consumer/graphql/opts_schema.graphql", "scalar Stamp\nenum distance_unit { METER KM }\nenum Color { RED GREEN }\ninterface Shape { id: ID! }\ntype Circle implements Shape { id: ID! r: Int }\ntype Square implements Shape { id: ID! side: Int }\ninput Filter { name: String unit: distance_unit limit: Int }\ntype Query { unit: distance_unit! color: Color old: Int @deprecated(reason: \"gone\") fresh: Int at: Stamp shape: Shape find(f: Filter, u: distance_unit): Int }\n");
+    w("consumer/graphql/opts_query.graphql", "query Opts($f: Filter, $u: distance_unit) { unit color old fresh at shape { __typename ... on Circle { r } } find(f: $f, u: $u) }\n");
+    w("consumer/Cargo.toml", &format!("[package]\nname = \"consumer\"\nversion = \"0.1.0\"\nedition = \"2021\"\n\n[dependencies]\ngraphql_client = {{ path = \"{}/graphql_client\" }}\nserde = {{ version = \"1\", features = [\"derive\"] }}\nserde_json = \"1\"\n", repo));
+    let prelude = "#![allow(warnings)]\n#![deny(unfulfilled_lint_expectations)]\nuse graphql_client::GraphQLQuery;\nuse serde::{Serialize, Deserialize};\ntype Stamp = String;\n";
+    let payload_known = r#"{"unit":"KM","color":"RED","old":1,"fresh":2,"at":"now","shape":{"__typename":"Circle","r":2},"find":3}"#;
+    let payload = r#"{"unit":"KM","color":"RED","old":1,"fresh":2,"at":"now","shape":{"__typename":"Triangle"},"find":3}"#;
+    let paths = "schema_path = \"graphql/opts_schema.graphql\", query_path = \"graphql/opts_query.graphql\"";
+    let option_probes: Vec<(&str, String)> = vec![
+        // extern_enums beside normalization = rust: the listed (schema) name still designates the caller's type
+        ("extern_enums + normalization = rust on an enum whose name normalization changes", format!(
+            "{prelude}#[derive(Debug, Serialize, Deserialize, PartialEq)] pub enum DistanceUnit {{ METER, KM }}\n#[derive(GraphQLQuery)]\n#[graphql({paths}, normalization = \"rust\", extern_enums(\"distance_unit\"), response_derives = \"Debug\")]\npub struct Opts;\nfn main() {{ let d: opts::ResponseData = serde_json::from_str({payload_known:?}).unwrap_or_else(|e| {{ eprintln!(\"{{}}\", e); std::process::exit(3) }}); let u: DistanceUnit = d.unit; assert_eq!(u, DistanceUnit::KM); }}\n")),
+        // no `deprecated` key: the documented default (warn) marks the field, whatever lints the struct allows
+        ("default deprecation strategy beside #[allow(deprecated)] on the struct", format!(
+            "{prelude}#[allow(deprecated)]\n#[derive(GraphQLQuery)]\n#[graphql({paths})]\npub struct Opts;\n#[expect(deprecated)]\nfn touch(d: &opts::ResponseData) -> Option<i64> {{ d.old }}\nfn main() {{ let d: opts::ResponseData = serde_json::from_str({payload_known:?}).unwrap_or_else(|e| {{ eprintln!(\"{{}}\", e); std::process::exit(3) }}); assert_eq!(touch(&d), Some(1)); }}\n")),
+        // a flag beside a list-valued option in one attribute
+        ("skip_serializing_none beside extern_enums(...)", format!(
+            "{prelude}#[derive(Debug, Serialize, Deserialize, PartialEq)] pub enum distance_unit {{ METER, KM }}\n#[derive(GraphQLQuery)]\n#[graphql({paths}, extern_enums(\"distance_unit\"), skip_serializing_none)]\npub struct Opts;\nfn main() {{ let v = opts::Variables {{ f: Some(opts::Filter {{ name: Some(\"x\".into()), unit: None, limit: None }}), u: None }}; let s = serde_json::to_string(&v).unwrap(); if s != r#\"{{\"f\":{{\"name\":\"x\"}}}}\"# {{ eprintln!(\"{{}}\", s); std::process::exit(4) }} }}\n")),
+        // every option at once
+        ("all options in one attribute", format!(
+            "{prelude}mod scalars {{ pub type Stamp = u8; }}\n#[derive(Debug, Serialize, Deserialize, PartialEq, Clone, Default)] pub enum Color {{ #[default] RED, GREEN }}\n#[derive(GraphQLQuery)]\n#[graphql({paths}, response_derives = \"Debug,Clone,PartialEq\", variables_derives = \"Debug,Default\", deprecated = \"deny\", normalization = \"rust\", custom_scalars_module = \"crate::scalars\", extern_enums(\"Color\"), fragments_other_variant = \"true\", skip_serializing_none)]\npub struct Opts;\nfn main() {{ let d: opts::ResponseData = serde_json::from_str(&{payload:?}.replace(\"\\\"now\\\"\", \"7\")).unwrap_or_else(|e| {{ eprintln!(\"{{}}\", e); std::process::exit(3) }}); let c: Option<Color> = d.color.clone(); let at: Option<u8> = d.at; let _ = d.clone() == d; match d.shape {{ Some(opts::OptsShape::Unknown) => (), _ => std::process::exit(5) }}; let _: opts::DistanceUnit = d.unit; let v = opts::Variables::default(); let s = serde_json::to_string(&v).unwrap(); if s != \"{{}}\" {{ eprintln!(\"{{}}\", s); std::process::exit(4) }} }}\n#[cfg(any())] fn never(d: opts::ResponseData) {{ let _ = d.old; }}\n")),
+    ];
+    for (how, src) in option_probes {
+        w("consumer/src/main.rs", &src);
+        let o = Command::new("cargo")
+            .args(["run", "--offline", "--quiet", "-p", "consumer"])
+            .current_dir(&ws)
+            .env("CARGO_TARGET_DIR", std::path::PathBuf::from(&verif).join(".cache").join("derive-target"))
+            .env("CARGO_NET_OFFLINE", "true")
+            .env("RUSTFLAGS", "-Awarnings")
+            .stdout(Stdio::null())
+            .stderr(Stdio::piped())
+            .output();
+        let got = match o {
+            Ok(o) if o.status.success() => "applied".to_string(),
+            Ok(o) => {
+                let e = String::from_utf8_lossy(&o.stderr).to_string();
+                format!("not applied: {}", e.lines().find(|l| l.contains("error") || l.contains("panicked")).or_else(|| e.lines().last()).unwrap_or("").chars().take(160).collect::<String>())
+            }
+            Err(e) => format!("error: {}", e),
+        };
+        out.push((how.to_string(), got));
+    }
     let _ = std::fs::remove_dir_all(&ws);
     out
 }
